@@ -41,6 +41,9 @@ pub struct Scenario {
     /// options through a configuration file (JET1090_CONFIG) instead of the command line; the only way to give an
     /// *empty* filter list
     pub via_config: bool,
+    /// with `via_config`: 1 = the df filter is given on the command line instead of in the file, 2 = the aircraft
+    /// filter is (the command line overrides the file option by option; the other filter stays in the file)
+    pub split: u8,
     /// addresses whose stored history (`/track?icao24=`) is fetched once everything has been processed
     pub track: Vec<u32>,
 }
@@ -142,11 +145,24 @@ pub fn play(env: &Env, sc: &Scenario, tag: &str) -> Result<Outcome, Fail> {
     let ports: Vec<u16> = listeners.iter().map(|l| l.local_addr().map(|a| a.port())).collect::<Result<_, _>>().map_err(|e| skip(&e.to_string()))?;
     if sc.via_config {
         let mut t = format!("verbose = true\ninteractive = false\nprevent_sleep = false\nserve_port = {web}\ndeduplication = {}\nupdate_position = {}\n", sc.dedup_ms, sc.update_position);
-        if let Some(l) = &sc.df_filter {
+        // an empty list cannot be written on the command line
+        let df_cli = sc.split == 1 && matches!(&sc.df_filter, Some(l) if !l.is_empty());
+        let ac_cli = sc.split == 2 && matches!(&sc.aircraft_filter, Some(l) if !l.is_empty());
+        if let (Some(l), false) = (&sc.df_filter, df_cli) {
             t += &format!("df_filter = [{}]\n", l.iter().map(|d| d.to_string()).collect::<Vec<_>>().join(", "));
         }
-        if let Some(l) = &sc.aircraft_filter {
+        if let (Some(l), false) = (&sc.aircraft_filter, ac_cli) {
             t += &format!("aircraft_filter = [{}]\n", l.iter().map(|a| format!("\"{a:06x}\"")).collect::<Vec<_>>().join(", "));
+        }
+        if df_cli {
+            for d in sc.df_filter.as_ref().unwrap() {
+                cmd.args(["--df-filter", &d.to_string()]);
+            }
+        }
+        if ac_cli {
+            for a in sc.aircraft_filter.as_ref().unwrap() {
+                cmd.args(["--aircraft-filter", &format!("{a:06x}")]);
+            }
         }
         if sc.with_file {
             t += &format!("output = \"{}\"\n", out_file.to_str().unwrap());
@@ -336,7 +352,7 @@ pub fn scenario_json(sc: &Scenario) -> Value {
     serde_json::json!({
         "references": sc.references.iter().map(|r| r.map(|(a, o)| vec![a, o])).collect::<Vec<_>>(),
         "sends": sc.sends.iter().map(|s| serde_json::json!([s.source, hex::encode(&s.frame), s.pause_ms, s.cut])).collect::<Vec<_>>(),
-        "df_filter": sc.df_filter, "aircraft_filter": sc.aircraft_filter, "dedup_ms": sc.dedup_ms, "update_position": sc.update_position, "with_file": sc.with_file, "via_config": sc.via_config, "track": sc.track,
+        "df_filter": sc.df_filter, "aircraft_filter": sc.aircraft_filter, "dedup_ms": sc.dedup_ms, "update_position": sc.update_position, "with_file": sc.with_file, "via_config": sc.via_config, "split": sc.split, "track": sc.track,
     })
 }
 
@@ -350,6 +366,7 @@ pub fn scenario_of(v: &Value) -> Scenario {
         update_position: v["update_position"].as_bool().unwrap_or(false),
         with_file: v["with_file"].as_bool().unwrap_or(false),
         via_config: v["via_config"].as_bool().unwrap_or(false),
+        split: v["split"].as_u64().unwrap_or(0) as u8,
         track: v["track"].as_array().map(|a| a.iter().map(|x| x.as_u64().unwrap_or(0) as u32).collect()).unwrap_or_default(),
     }
 }
